@@ -62,13 +62,35 @@ def replay(r):
     from tangermeme.predict import predict
     A, L = r["A"], r["L"]
     model = dl.real_model(r.get("arch", "dense1"), A, L)
+    if r.get("shared_act") or r.get("bn"):
+        base = model
+
+        class Wrap(torch.nn.Module):
+            def __init__(self):
+                super().__init__()
+                self.inner = base
+                if r.get("shared_act"):
+                    self.alias = [m_ for m_ in base if isinstance(m_, (torch.nn.Tanh, torch.nn.ReLU, torch.nn.GELU))][0]
+                if r.get("bn"):
+                    self.bn = torch.nn.BatchNorm1d(A).double()
+
+            def forward(self, X, *a):
+                if r.get("bn"):
+                    X = self.bn(X)
+                return self.inner(X)
+        model = Wrap()
+        model.train(bool(r.get("starts_in_training_mode", True)))
     probe = torch.rand(1, A, L, dtype=torch.float64, generator=torch.Generator().manual_seed(0), requires_grad=True)
 
     def beh():
         y = model(probe)
         (g,) = torch.autograd.grad(y[:, 0].sum(), probe)
         return y.detach().clone(), g.clone()
+    was_training = model.training
+    model.eval()
     y0, g0 = beh()
+    model.train(was_training)
+    b0 = {k: v.clone() for k, v in model.state_dict().items()}
     p0 = [p.detach().clone() for p in model.parameters()]
     X = C.real_onehot(r.get("x") or [[i % A for i in range(L)], [(i + 1) % A for i in range(L)]], A).double()
     calls = {"n": 0}
@@ -105,9 +127,14 @@ def replay(r):
         pass
     if site == "forward":
         h.remove()
+    if r.get("bn"):
+        b1 = {k: v.clone() for k, v in model.state_dict().items()}
+        if any(not torch.equal(b0[k], b1[k]) for k in b0):
+            return True, "state_dict entries changed by the call: %s" % [k for k in b0 if not torch.equal(b0[k], b1[k])]
     left = sum(len(m._forward_hooks) + len(m._forward_pre_hooks) + len(m._backward_hooks) for m in model.modules())
     if left:
         return True, "%d hooks left registered on the model after the call (site=%s, at=%s)" % (left, site, at)
+    model.eval()
     y1, g1 = beh()
     if not torch.equal(y0, y1) or not torch.equal(g0, g1):
         return True, "model outputs / gradients changed after the call"
@@ -137,13 +164,23 @@ def worker(cfg):
             def __init__(self):
                 super().__init__()
                 self.inner = inner
+                if cfg.get("shared_act"):
+                    # the same activation object reachable through a second parent (model.apply visits it twice)
+                    self.alias = [m_ for m_ in inner._modules.values() if type(m_).__name__ in nn.ACT_NAMES][0]
+                if cfg.get("bn"):
+                    self.bn = NN.BatchNorm1d(A)
 
             def forward(self, X, *a):
                 faults.site("forward")
+                if cfg.get("bn"):
+                    X = self.bn(X)
                 return self.inner(X)
         net = Net()
+        if cfg.get("bn"):
+            net.train(bool(core.Bool("starts_in_training_mode")))
         params0 = [id(p) for p in net.parameters()]
         pvals0 = [p.a.copy() for p in net.parameters()]
+        bufs0 = [b.a.copy() for b in net.buffers()]
         beh0 = _behaviour(inner, A, L)
         xc = C.sym_chars(ctx, "x", (B, L), A)
         X = C.onehot_from_chars(xc, A, dtype="float32")
@@ -194,6 +231,9 @@ def worker(cfg):
         if [id(p) for p in net.parameters()] != params0 or any(not C.same_objects(p.a, q) for p, q in zip(net.parameters(), pvals0)):
             ok = False
             out["violations"].append(C.violation("params-changed", "parameters replaced or modified by %s" % entry, dict(rp, entry="deep_lift_shap"), replay))
+        if any(not (b.a.shape == q.shape and all(bool(x_ == y_) for x_, y_ in zip(b.a.flat, q.flat))) for b, q in zip(net.buffers(), bufs0)):
+            ok = False
+            out["violations"].append(C.violation("buffers-changed", "buffers (running statistics) of the model were modified by %s" % entry, dict(rp, entry=entry, bn=True), replay))
         if left == 0:
             beh1 = _behaviour(inner, A, L)
             if beh1 != beh0:
@@ -218,7 +258,8 @@ def configs(tier):
     q = tier == "quick"
     cf = [dict(entry="deep_lift_shap", A=2, L=3, B=2, K=14, batch_size=2), dict(entry="deep_lift_shap", A=2, L=3, B=2, K=10, batch_size=3, tensor_refs=True, bad_target=True),
           dict(entry="predict", A=2, L=3, B=3, K=4, batch_size=2), dict(entry="deep_lift_shap", A=2, L=2, B=1, K=8, batch_size=1, history=2, hypothetical=True),
-          dict(entry="marginalize_dls", A=2, L=3, B=1, K=8)]
+          dict(entry="marginalize_dls", A=2, L=3, B=1, K=8), dict(entry="deep_lift_shap", A=2, L=3, B=2, K=10, batch_size=2, shared_act=True),
+          dict(entry="predict", A=2, L=3, B=3, K=4, batch_size=2, bn=True), dict(entry="deep_lift_shap", A=2, L=3, B=1, K=6, batch_size=2, bn=True)]
     if not q:
         cf += [dict(entry="deep_lift_shap", A=2, L=3, B=3, K=24, batch_size=2, arch="conv"), dict(entry="deep_lift_shap", A=2, L=3, B=2, K=14, batch_size=4, raw=True),
                dict(entry="deep_lift_shap", A=3, L=3, B=2, K=16, batch_size=1, history=2)]
